@@ -1,4 +1,4 @@
-//! vx_io: see /verif/harness/AGENTS-GUIDE.md; one module per property, dispatched on the property id.
+//! vx_refs: see /verif/harness/AGENTS-GUIDE.md; one module per property, dispatched on the property id.
 
 use vcore::{machinery_error, Ctx};
 
@@ -7,7 +7,7 @@ fn main() {
     vcore::quiet_panics();
     #[allow(clippy::match_single_binding)]
     let out: vcore::Outcome = match ctx.id.as_str() {
-        other => machinery_error(&format!("vx_io does not implement {other}")),
+        other => machinery_error(&format!("vx_refs does not implement {other}")),
     };
     #[allow(unreachable_code)]
     vcore::finish(&ctx, out);
